@@ -43,6 +43,7 @@ type Engine struct {
 	immPrefixes []string
 	immProblems []string
 	immChecked  bool
+	reGlobalMap map[*ssa.Global]string
 	refKeys1    map[string]bool
 	refKeys2    map[string]bool
 	privCache   map[*ssa.Function]map[*ssa.Alloc]bool
@@ -475,6 +476,7 @@ func (e *Engine) verifyFunc(fn *ssa.Function, con *Contract) *FnCtx {
 	s.held = boolLit(con != nil && con.Locked)
 	c.entryHeld = s.held
 	s.ghost["exec_count"] = Val{T: intT, S: "0"}
+	s.initNetGhost()
 	for _, p := range fn.Params {
 		v := s.freshVal(p.Type(), "p_"+p.Name())
 		s.env[p] = v
@@ -641,6 +643,13 @@ func (s *State) checkPost(res []Val) {
 		pkgName = p.Pkg.Name()
 	}
 	c.checkIfacePosts(s, res)
+	for i, ex := range c.con.Exits {
+		x := s.invCtx()
+		bindResultVars(x.vars, res, c.fn, c.fn.Signature)
+		v := x.eval(ex.Expr)
+		c.specErrors(x, ex.Where)
+		s.oblige("exit", nil, i+1, v.S, "at every return: "+ex.Src, true)
+	}
 	for i, en := range c.con.Ensures {
 		parts := unfoldConj(en.Expr, c.eng.contracts.Preds, pkgName, 0)
 		for j, part := range parts {
